@@ -317,6 +317,29 @@ class TimeRecurrence:
         If the given timepoint is before the start point, return the
         start point, or if it is after the end point, return None.
         """
+        if self._start_point is None:
+            # Unbounded duration/end series: it runs backwards from the end
+            # point, so find the last step back that stays after timepoint.
+            if (timepoint is None or self._end_point is None or
+                    not timepoint < self._end_point):
+                return None
+            next_timepoint = self._end_point
+            if self._duration and self._duration.is_exact():
+                iterations, seconds_since = divmod(
+                    (self._end_point - timepoint).get_seconds(),
+                    self._duration.get_seconds())
+                if not seconds_since:
+                    iterations -= 1
+                next_timepoint = (
+                    self._end_point - self._duration * int(iterations))
+            elif self._duration:
+                prev_timepoint = next_timepoint - self._duration
+                while timepoint < prev_timepoint < next_timepoint:
+                    next_timepoint = prev_timepoint
+                    prev_timepoint = next_timepoint - self._duration
+            if self._get_is_in_bounds(next_timepoint):
+                return next_timepoint
+            return None
         if self._get_is_in_bounds(timepoint):
             if self._duration is not None and self._duration.is_exact():
                 # Since it's exact, we can do maths instead of iterating
